@@ -952,7 +952,11 @@ class Explorer:
                     self.havoc_ref(st, args[i], (path, i), site)
             self.write_place(st, fr, dest, res, site)
             return self.after_call(st, fr, target)
-        if callee is not None and args and all(a[0] == "c" or (a[0] == "agg" and not a[3]) for a in args) and len(stack) < 10 \
+        def const_arg(a):
+            if a[0] == "ref":
+                a = self.read_loc(st, a[1], a[2])     # `code.is_failure()`: &self pointing at a known variant
+            return a[0] == "c" or (a[0] == "agg" and not a[3])
+        if callee is not None and args and all(const_arg(a) for a in args) and len(stack) < 10 \
                 and not any(path.endswith(x) for x in getattr(self, "no_fold", ())):
             # constant folding through small in-crate functions (conversion tables, try_from on constants)
             self.stats["inlined"].add(path)
@@ -1590,6 +1594,29 @@ class Explorer:
             if ty in ("u8", "u16", "u32", "u64", "usize", "i32", "i64"):
                 return ret(C(0, ty))
             return None
+        # ---- integer helper methods on constants
+        mnum = re.match(r"^std::num::<impl (u8|u16|u32|u64|u128|usize)>::(saturating_sub|saturating_add|checked_sub|checked_add|wrapping_sub|wrapping_add|min|max|pow)$", path)
+        if mnum is None and p in ("std::cmp::Ord::min", "std::cmp::Ord::max") and len(args) == 2 and args[0][0] == "c" and args[1][0] == "c":
+            return ret(C(min(args[0][1], args[1][1]) if p.endswith("min") else max(args[0][1], args[1][1]), args[0][2]))
+        if mnum and len(args) == 2 and args[0][0] == "c" and args[1][0] == "c" and isinstance(args[0][1], int) and isinstance(args[1][1], int):
+            ty, opn = mnum.group(1), mnum.group(2)
+            lo, hi = int_range(ty)
+            x, y = args[0][1], args[1][1]
+            OPT = "std::option::Option"
+            if opn == "saturating_sub":
+                return ret(C(max(x - y, lo), ty))
+            if opn == "saturating_add":
+                return ret(C(min(x + y, hi), ty))
+            if opn == "checked_sub":
+                return ret(AGG(OPT, "Some", (C(x - y, ty),)) if x - y >= lo else AGG(OPT, "None"))
+            if opn == "checked_add":
+                return ret(AGG(OPT, "Some", (C(x + y, ty),)) if x + y <= hi else AGG(OPT, "None"))
+            if opn == "wrapping_sub":
+                return ret(C((x - y) % (hi + 1), ty))
+            if opn == "wrapping_add":
+                return ret(C((x + y) % (hi + 1), ty))
+            if opn in ("min", "max"):
+                return ret(C(min(x, y) if opn == "min" else max(x, y), ty))
         # ---- iteration over an array literal: concrete, element by element (finite, so no loop bound applies)
         if path.endswith("IntoIterator for [T; N]>::into_iter") and args and args[0][0] == "arr":
             return ret(("arriter", args[0][1], 0))
